@@ -60,12 +60,11 @@ per driven bit. `SpecDesign.model` is the Model's reading of a Spec design (per 
 Hypotheses (`LeafOk`, `Proofs/DomainRefine.lean`): the program is what the DSL accepts (`Prog.listOk`); targets are
 assignable (`twf`) and no slice / part-select operand addresses a signal bit twice (`noAlias`, forced by finding F9 as
 in C02); inserter controls are well-formed expressions (no width-1 requirement: `Switch(ctl){1: …}` selects iff the
-value is the integer 1, `ctl_is_one`); states within shapes (`EnvN`); and `PartsReached`: every operand bit of a
-part-select in a target is also *positionally* driven. The last one marks a genuine difference found by this proof:
-`LHSMaskCollector` marks the whole operand of a `Part` even when an enclosing slice/concatenation window can never
-reach it, the Spec's positional `drivenBy` does not — `part_under_window_witness` is the design on which Model (= the
-real simulator) and Spec differ. `Spec/DrivenPart.lean` holds the repaired notion (`progDrivesP`), for which
-`progMask_iff` holds without that hypothesis; `PartsReached` is used in exactly one lemma (`progMask_drives`).
+value is the integer 1, `ctl_is_one`); states within shapes (`EnvN`). The proof found one genuine difference between
+the code and the first, purely positional reading of "driven bit": `LHSMaskCollector` marks the whole operand of a
+`Part` even when an enclosing slice/concatenation window can never reach it. The Spec's `drivenP` (Spec/Prog.lean) has
+that clause since; `part_under_window_witness` is the design on which the positional reading differed from the real
+simulator (kept as a regression example; `masks_are_driven_bits` is the exact characterisation of the masks).
 
 `sync_no_reset`, `sync_reset_loads_init`, `async_reset_only_resettable`, `renamer_moves_only_domain` and
 `inserter_other_domain` only unfold the Model's definitions: they record its shape, the content is in the `*_bits`,
@@ -445,14 +444,13 @@ theorem leaf_edge_model_eq_spec (D : SpecDesign) (l : Leaf) (cur' acc : Env) (rs
     (hC : EnvN D.ctx cur') (hI : EnvN D.ctx D.inits) (hA : EnvN D.ctx acc)
     (hprog : Prog.listOk D.ctx l.prog = true)
     (htg : ∀ e ∈ Prog.listTargets l.prog, e.twf D.ctx = true ∧ e.noAlias D.ctx cur')
-    (hparts : PartsReached D.ctx l.prog)
     (hctl : ∀ w ∈ l.wrappers, w.ctlWf D.ctx = true) :
     commitInto D.ctx (leafProc D l).body (syncNext D.ctx D.inits D.resetLess rst (leafProc D l).body cur') acc =
       mergeDriven D.ctx l.prog (fun _ => true)
         (if rst.getD 0 % 2 = 1 then
           mergeDriven D.ctx l.prog (fun i => !(D.resetLess.getD i false)) D.inits (l.edgeValue D cur')
          else l.edgeValue D cur') acc :=
-  leaf_edge_refines D l cur' hC.toOk hC hI ⟨hprog, htg, hparts, hctl⟩ rst acc hA
+  leaf_edge_refines D l cur' hC.toOk hC hI ⟨hprog, htg, hctl⟩ rst acc hA
 
 /-- **One leaf when an asynchronous reset rises without an active edge: Model = Spec.** The reset-only process of the
 rewritten statements loads the initial values into exactly the bits the Spec names: the driven bits of the
@@ -461,11 +459,10 @@ theorem leaf_arst_model_eq_spec (D : SpecDesign) (l : Leaf) (cur' acc : Env)
     (hC : EnvN D.ctx cur') (hI : EnvN D.ctx D.inits) (hA : EnvN D.ctx acc)
     (hprog : Prog.listOk D.ctx l.prog = true)
     (htg : ∀ e ∈ Prog.listTargets l.prog, e.twf D.ctx = true ∧ e.noAlias D.ctx cur')
-    (hparts : PartsReached D.ctx l.prog)
     (hctl : ∀ w ∈ l.wrappers, w.ctlWf D.ctx = true) :
     resetOnlyInto D.ctx D.inits D.resetLess (leafProc D l).body acc =
       mergeDriven D.ctx l.prog (fun i => !(D.resetLess.getD i false)) D.inits acc :=
-  leaf_arst_refines D l cur' hC.toOk hC hI ⟨hprog, htg, hparts, hctl⟩ acc hA
+  leaf_arst_refines D l cur' hC.toOk hC hI ⟨hprog, htg, hctl⟩ acc hA
 
 /-- **One leaf at any event** (active edge, rising asynchronous reset, both at once, or neither): what the Model's
 process does to `acc` is what the leaf contributes to the synchronous phase of `specEvent`. -/
@@ -501,12 +498,12 @@ theorem event_model_eq_spec (D : SpecDesign) (cur : Env) (changes : List (Nat ×
 
 /-- The static commit masks of a lowered program are the bits the program drives in the code's sense (`progDrivesP`,
 `Spec/DrivenPart.lean`): some position of a target can be the bit, or the bit lies in the operand of a part-select that
-occurs in a target. No `PartsReached` here. -/
+occurs in a target. -/
 theorem masks_are_driven_bits (ctx : Ctx) (prog : List Prog) (htw : ∀ e ∈ Prog.listTargets prog, e.twf ctx = true)
     (i b : Nat) : ibit ((progMask ctx prog).get i) b = progDrivesP ctx prog i b :=
   progMask_iff ctx prog htw i b
 
-/-! #### The design on which the positional Spec and the code differ (why `PartsReached` is there) -/
+/-! #### The design on which a purely positional reading of "driven" and the code differ -/
 
 /-- signals: clk, rst, `a` (2 bits, init 1), `x`, `off`; `sync += Cat(a.bit_select(off, 2), x)[2:3].eq(1)` -/
 def cexLeaf : Leaf :=
@@ -517,13 +514,10 @@ def cexD : SpecDesign :=
     resetLess := [false, false, false, false, false], doms := [{ clk := 0, rst := some 1 }], leaves := [cexLeaf] }
 
 /-- Only `x` can be written, but `LHSMaskCollector` marks all of `a` as driven by the domain, so the domain's reset loads
-`a`'s initial value (Model; the real simulator does the same: `a = 1` after the edge); the positional Spec leaves `a`
-alone. The target is well-formed; `PartsReached` is exactly what fails. -/
+`a`'s initial value — in the Model, in the real simulator (`a = 1` after the edge) and in the Spec. -/
 theorem part_under_window_witness :
     eventStep cexD.model [0, 1, 2, 0, 0] [(0, 1)] = [1, 1, 1, 0, 0] ∧
-    specEvent cexD [0, 1, 2, 0, 0] [(0, 1)] = [1, 1, 2, 0, 0] ∧
-    (∀ l ∈ cexD.leaves, ∀ e ∈ Prog.listTargets l.prog, e.twf cexD.ctx = true) ∧
-    ¬ PartsReached cexD.ctx cexLeaf.prog := by
+    specEvent cexD [0, 1, 2, 0, 0] [(0, 1)] = [1, 1, 1, 0, 0] := by
   decide
 
 /-! #### Non-vacuity: a reset inserter inside an enable inserter -/
@@ -544,7 +538,7 @@ theorem exR_ok (e : Env) : LeafOk exR e exRLeaf :=
     intro t ht
     have : t = .sig 3 ∨ t = .sig 4 := by simpa [exRLeaf, Prog.listTargets, Prog.targets] using ht
     rcases this with rfl | rfl <;> exact ⟨by decide, trivial⟩,
-   by decide, by decide⟩
+   by decide⟩
 
 example : EnvN exR.ctx [1, 1, 1, 6, 0] := ⟨rfl, by decide⟩
 example : EnvN exR.ctx exR.inits := ⟨rfl, by decide⟩
